@@ -57,7 +57,7 @@ func refExtent(family string, x []byte) (int, bool) {
 }
 
 type c03Base struct {
-	in        *Input
+	in          *Input
 	consumedAll map[string]bool // parser name -> accepted the base and consumed it completely
 }
 
